@@ -27,7 +27,16 @@ def _sig(rj):
     st = ev.get("st", {})
     rb = ev.get("o", {}).get("rb", [])
     empty = any(rb[i] == rb[i + 1] for i in range(len(rb) - 1))      # some class interval is a single point
-    refused = any('"rk":"bpp"' in ln for ln in (rj.prefix or [])[:-1])   # an earlier call of the history was refused
+    refused_calls = set()                                                # entry points refused earlier in the history
+    for ln in (rj.prefix or [])[:-1]:
+        if '"rk":"bpp"' in ln:
+            try:
+                refused_calls.add(json.loads(ln).get("e", "?"))
+            except ValueError:
+                refused_calls.add("?")
+    refused = bool(refused_calls)
+    tw = ev.get("o", {}).get("tw", {})                                   # what differs from the freshly built twin
+    stale = "+".join(sorted(k for k, v in tw.items() if k != "built" and v is False)) if tw.get("built") else "twin-not-built"
     # narrow: the values that are out of their class are ALL in classes narrower than 100 x the 1e-12 resolution of
     # the class map (computed by the driver from the raw doubles); rescaled_median: the class values are medians
     # multiplied by mean/sum(medians) (median flag on, equal-probability discretisation)
@@ -36,7 +45,8 @@ def _sig(rj):
     return {"action": ev.get("e"), "invariant": rj.invariant or "step", "kind": st.get("kind", ""), "fam": st.get("fam", ""),
             "narrow": narrow, "rescaled_median": rescaled, "scheme": st.get("scheme", ""),
             "median": st.get("median", ""), "outcome": ev.get("rk", ""), "emptyclass": empty,
-            "compound": st.get("kind", "") in ("invariant", "mixture"), "after_refusal": refused}
+            "compound": st.get("kind", "") in ("invariant", "mixture"), "after_refusal": refused,
+            "refused_calls": "+".join(sorted(refused_calls)), "stale_fields": stale}
 
 
 def _validate(ck, trace, tag="t"):
